@@ -707,6 +707,13 @@ def build():
     # "saving ... the saved file reopens to the same grid": Document.save hands every table to the writers (C16's contract, re-verified here)
     from contracts import C16_save
     C16_save.add(plan, ctx, lambda plan_, c: {"custom": "search_edit", "native_module": plan_.native_module, "op": "add_row"})
+    # "the saved file reopens to the same grid": numbers are stored through the decimal128 codec (C01's contracts and lemmas, re-verified here)
+    from contracts import C01 as _C01
+    _p1 = _C01.build()
+    plan.import_targets(_p1, lambda c: c.qual in ("cell:_pack_decimal128", "cell:_unpack_decimal128"))
+    for _lem in _p1.lemmas:
+        if _lem.name.startswith("D128") or _lem.name == "IPOW_POS":
+            plan.lemmas.append(_lem)
     from contracts.shared_ground import added_table_owns_every_keyed_list
     plan.ground.append(("added-table-owns-every-keyed-list", added_table_owns_every_keyed_list))
     # "saving ... may be repeated": the text keys of a save are not remembered for the next one (shared with C01)
